@@ -2,7 +2,7 @@
 import ast
 from sa.index import AnalysisError
 from sa.paths import call_name
-from rules.common import txt, paths_of, loc, tests_on, strip_not, check_none_default
+from rules.common import list_delegation, txt, paths_of, loc, tests_on, strip_not, check_none_default
 
 SPEC = {
     'explanation': (
@@ -53,15 +53,39 @@ def run(ctx):
                 bad = (o, p)
     ctx.ob('T9.validate', bi.fq, 'no ValueError is raised after a value has been yielded', bad is None,
            loc=loc(bi, bad[0].node) if bad else bi.loc, path=bad[1].describe() if bad else None)
-    # the range tests: each must exist as a test whose true-branch raises ValueError
-    raising_tests = []
-    for n in ast.walk(bi.node):
-        if isinstance(n, ast.If) and any(isinstance(x, ast.Raise) for x in n.body):
-            conds = n.test.values if isinstance(n.test, ast.BoolOp) and isinstance(n.test.op, ast.And) else [n.test]
-            raising_tests.append((n, [canon_cmp(c) for c in conds], txt(n.test)))
+    # the range tests: each must exist as the atomic test that triggers a ValueError path before the first yield
+    import re as _re
+
+    def norm(e):
+        t = txt(w.expand(e))
+        return _re.sub(r'float\((\w+)\)', r'\1', t)
+    NEG = {'Lt': 'GtE', 'GtE': 'Lt', 'Gt': 'LtE', 'LtE': 'Gt', 'Eq': 'NotEq', 'NotEq': 'Eq'}
+    atoms = []          # canonical (subject, op, other) comparisons that, when true, lead to raise ValueError
+    chains = []         # (lo, op1, mid, op2, hi) chained comparisons that, when FALSE, lead to raise ValueError
+    raising_texts = set()
+    for p in paths:
+        if p.kind != 'raise' or 'ValueError' not in str(p.outcome[1]):
+            continue
+        if any(o.kind == 'yield' for o in p.ops):
+            continue
+        tests = [o for o in p.ops if o.kind == 'test']
+        if not tests:
+            continue
+        o = tests[-1]
+        e, neg = strip_not(o.val)
+        truth = (o.info != neg)
+        raising_texts.add(('' if truth else 'not ') + norm(e))
+        if isinstance(e, ast.Compare) and len(e.ops) == 1:
+            opn = type(e.ops[0]).__name__
+            if not truth:
+                opn = NEG.get(opn, opn)
+            atoms.append((norm(e.left), opn, norm(e.comparators[0])))
+        elif isinstance(e, ast.Compare) and len(e.ops) == 2 and not truth:
+            chains.append((norm(e.left), type(e.ops[0]).__name__, norm(e.comparators[0]), type(e.ops[1]).__name__, norm(e.comparators[1])))
+    raising_tests = [(None, [a], t) for a, t in zip(atoms, sorted(raising_texts))] or []
 
     def has(pred):
-        return any(any(c is not None and pred(c) for c in cs) for _, cs, _ in raising_tests)
+        return any(pred(c) for c in atoms)
     zero = ('0', '0.0')
     one = ('1', '1.0')
     checks = [
@@ -69,12 +93,16 @@ def run(ctx):
         ('factor < 1 rejected', lambda c: (c[0] == 'factor' and c[1] == 'Lt' and c[2] in one) or (c[2] == 'factor' and c[1] == 'Gt' and c[0] in one)),
         ('stop == 0 rejected', lambda c: (c[0] == 'stop' and c[1] in ('Eq', 'LtE') and c[2] in zero) or (c[2] == 'stop' and c[1] in ('Eq', 'GtE') and c[0] in zero)),
         ('stop < start rejected', lambda c: (c[0] == 'stop' and c[1] == 'Lt' and c[2] == 'start') or (c[0] == 'start' and c[1] == 'Gt' and c[2] == 'stop')),
-        ('negative count rejected', lambda c: (c[0] == 'count' and c[1] == 'Lt' and c[2] in zero)),
+        ('negative count rejected', lambda c: (c[0] == 'count' and c[1] == 'Lt' and c[2] in zero) or (c[2] == 'count' and c[1] == 'Gt' and c[0] in zero)),
     ]
     for what, pred in checks:
         ctx.ob('T9.range', bi.fq, what + ' (raises ValueError)', has(pred), loc=bi.loc,
-               detail='raising tests: %s' % [t for _, _, t in raising_tests])
-    jit = any('jitter' in t and '-1' in t and ('<= 1' in t or '1.0' in t) for _, _, t in raising_tests)
+               detail='raising tests: %s' % sorted(raising_texts))
+    m1 = ('-1', '-1.0')
+    jit = any(lo in m1 and o1 == 'LtE' and mid == 'jitter' and o2 == 'LtE' and hi in one for lo, o1, mid, o2, hi in chains) or \
+        any(hi in m1 and o1 == 'GtE' and mid == 'jitter' and o2 == 'GtE' and lo in one for lo, o1, mid, o2, hi in chains) or \
+        (has(lambda c: (c[0] == 'jitter' and c[1] == 'Lt' and c[2] in m1) or (c[2] == 'jitter' and c[1] == 'Gt' and c[0] in m1)) and
+         has(lambda c: (c[0] == 'jitter' and c[1] == 'Gt' and c[2] in one) or (c[2] == 'jitter' and c[1] == 'Lt' and c[0] in one)))
     ctx.ob('T9.range', bi.fq, 'jitter outside [-1, 1] rejected (raises ValueError)', jit, loc=bi.loc)
     # T7 clamp between every change of the running delay and the next yield (source-level expressions).
     # The running variable is discovered: the target of `X *= factor` (or X = X * factor).
@@ -139,15 +167,8 @@ def run(ctx):
     check_none_default(ctx, bi, 'count')
     # T17 delegation
     b = prog.func('iterutils.backoff')
-    rets = [n for n in ast.walk(b.node) if isinstance(n, ast.Return)]
-    ok = False
-    if len(rets) == 1 and isinstance(rets[0].value, ast.Call) and call_name(rets[0].value) == 'list' and rets[0].value.args:
-        inner = rets[0].value.args[0]
-        if isinstance(inner, ast.Call) and call_name(inner) == 'backoff_iter':
-            got = {k.arg: txt(k.value) for k in inner.keywords}
-            for i, a in enumerate(inner.args):
-                got[bi.params[i]] = txt(a)
-            ok = got == {p: p for p in bi.params}
+    dl = list_delegation(prog, b, bi)
+    ok = bool(dl) and all(got == {p: p for p in bi.params} for got, _ in dl)
     ctx.ob('T17', b.fq, 'backoff(...) == list(backoff_iter(same arguments))', ok, loc=b.loc)
     from sa.consteval import Folder, Unknown
     folder = Folder(prog.module('iterutils'))
